@@ -28,7 +28,7 @@ FRAMES = [
     # ------------------------------------------------------------------------------------------------ C14: to_yaml / save
     dict(name="dict.add_to_dict", props=["C14"], target=f"{DICT}::add_to_dict", modifies=["full_dict"],
          callees={"get_unique_label": dict(mutates=[1], returns="fresh")}),
-    dict(name="dict.from_operator", props=["C14", "C07"], target=f"{DICT}::from_operator", modifies=["return_dict"],
+    dict(name="dict.from_operator", props=["C14", "C07", "C01"], target=f"{DICT}::from_operator", modifies=["return_dict"],
          callees={"add_to_dict": S_ADD_TO_DICT}),
     dict(name="dict.from_node", props=["C14"], target=f"{DICT}::from_node", modifies=["return_dict"],
          callees={"add_to_dict": S_ADD_TO_DICT, "from_operator": S_FROM_OP}),
@@ -46,9 +46,9 @@ FRAMES = [
     dict(name="CircuitTemplate.get_node_template", props=["C14"], target=f"{CIRC}::CircuitTemplate.get_node_template", modifies=[],
          callees={"*.get_node_template": S_PURE_ALIAS}),
     # ------------------------------------------------------------------------------------------------ C14 / C13: copy makers
-    dict(name="update_edges", props=["C14", "C13"], target=f"{CIRC}::update_edges", modifies=[], result_not_aliasing=["base_edges"]),
-    dict(name="update_dict", props=["C14"], target=f"{CIRC}::update_dict", modifies=[], result_not_aliasing=["base_dict"]),
-    dict(name="CircuitTemplate.update_template[in_place=False]", props=["C14"], target=f"{CIRC}::CircuitTemplate.update_template",
+    dict(name="update_edges", props=["C14", "C13", "C07"], target=f"{CIRC}::update_edges", modifies=[], result_not_aliasing=["base_edges"]),
+    dict(name="update_dict", props=["C14", "C07"], target=f"{CIRC}::update_dict", modifies=[], result_not_aliasing=["base_dict"]),
+    dict(name="CircuitTemplate.update_template[in_place=False]", props=["C14", "C07"], target=f"{CIRC}::CircuitTemplate.update_template",
          modifies=[], const_params={"in_place": False},
          callees={"update_dict": S_SHALLOW, "update_edges": S_SHALLOW}),
     dict(name="OperatorTemplate.update_template", props=["C14", "C15"], target=f"{OPER}::OperatorTemplate.update_template",
@@ -73,18 +73,18 @@ FRAMES = [
     for nm in ("run", "get_run_func", "get_jacobian_func")
 ] + [
     # ------------------------------------------------------------------------------------------------ C07
-    dict(name="OperatorGraphTemplate.apply", props=["C07", "C14"], target=f"{OPG}::OperatorGraphTemplate.apply", modifies=[],
+    dict(name="OperatorGraphTemplate.apply", props=["C07", "C14", "C01"], target=f"{OPG}::OperatorGraphTemplate.apply", modifies=[],
          callees={"*.apply": dict(mutates=["values"], returns="alias"), "self.target_ir": dict(mutates=[], returns="shallow")}),
     dict(name="OperatorGraphTemplate.update_var", props=["C07"], target=f"{OPG}::OperatorGraphTemplate.update_var", modifies=["self"],
          callees={"self.get_op": S_PURE_ALIAS}),
-    dict(name="CircuitTemplate.update_var", props=["C07", "C17"], target=f"{CIRC}::CircuitTemplate.update_var", modifies=["self"],
+    dict(name="CircuitTemplate.update_var", props=["C07", "C17", "C01"], target=f"{CIRC}::CircuitTemplate.update_var", modifies=["self"],
          regions={},
          callees={"self.get_nodes": S_PURE_FRESH,
                   "self.get_node_template": dict(mutates=[], returns="region:templates"),       # node templates may be shared between nodes / circuits
                   "*.update_var": dict(mutates=["self"], returns="fresh"),
                   "self.add_node_template": dict(mutates=["self"], returns="fresh"),
                   "self.get_edge": dict(mutates=[], returns="receiver")}),
-    dict(name="OperatorTemplate.apply", props=["C07", "C13"], target=f"{OPER}::OperatorTemplate.apply",
+    dict(name="OperatorTemplate.apply", props=["C07", "C13", "C01"], target=f"{OPER}::OperatorTemplate.apply",
          stores_not_flowing={"self.cache": ["values"]},      # what is cached under the operator's name never depends on the values of this call
          modifies=["values", "self.cache"],       # fills the caller's `values` with defaults (callers hand in a copy) and registers itself in the class-level cache
          callees={"_separate_variables": S_SHALLOW, "check_vname": S_PURE_FRESH, "self.target_ir": dict(mutates=[], returns="shallow")}),
@@ -98,7 +98,7 @@ FRAMES = [
     dict(name="utility.clear", props=["C13"], target="pyrates/utility.py::clear", modifies=["model"],
          callees={"model.clear": dict(mutates=["self"], returns="fresh"), "clear_frontend_caches": S_PURE_FRESH},
          must_call=["model.clear()", "clear_frontend_caches(**kwargs)"]),
-    dict(name="CircuitTemplate.clear", props=["C13"], target=f"{CIRC}::CircuitTemplate.clear",
+    dict(name="CircuitTemplate.clear", props=["C13", "C01"], target=f"{CIRC}::CircuitTemplate.clear",
          modifies=["self", "global:input_labels"],
          callees={"self._ir.clear": dict(mutates=["self"], returns="fresh"), "clear_ir_caches": S_PURE_FRESH, "gc.collect": S_PURE_FRESH,
                   "OperatorTemplate.cache.clear": S_PURE_FRESH},
